@@ -84,9 +84,12 @@ def apply_aliases(text: str, aliases: dict[str, str]) -> str:
     return text
 
 
+EXTRA_SINKS: set[str] = set()  # methods of the emitter under analysis recognised as filtered hand-overs to queue_event (see C20)
+
+
 def is_queue_event_call(e: Ev) -> bool:
     f = e.extra.get("func", "")
-    return e.kind == "call" and (f == "self.queue_event" or f.endswith(".queue_event"))
+    return e.kind == "call" and (f == "self.queue_event" or f.endswith(".queue_event") or (f.startswith("self.") and f[5:] in EXTRA_SINKS))
 
 
 def emissions_of(path_evs: list[Ev], program: Program, aliases: dict[str, str]) -> list[Emission]:
